@@ -6,9 +6,11 @@
     vacuum / DELETE-mode: SQLite online backup in one step; SQL dump: schema then table by table in
     one read transaction; through a follower: header, compressed stream, end marker, cut at any
     position with FIN or RST; HTTP response aborted when the failure comes after the first body
-    byte).  Invariants Consistent (content = State(i), i in the window), Complete, CutIsError,
-    GateReleased; one negative control per mechanism switch (GateDuringFileCopy,
-    SnapshotBeforeCopy, DumpInOneReadTxn, BackupSingleStep, StreamEndDetected, AbortAfterPartial).
+    byte; the producer failing before the first unit, between two units or before the end marker).
+    Invariants Consistent (content = State(i), i in the window), Complete, CutIsError (cut or
+    failed production => error), GateReleased; one negative control per mechanism switch
+    (GateDuringFileCopy, SnapshotBeforeCopy, DumpInOneReadTxn, BackupSingleStep, StreamEndDetected,
+    AbortAfterPartial, EndMarkerOnlyOnSuccess, CopyErrorReturned).
 (C) a live 3-node cluster: writer goroutines run the transfers over HTTP (each acknowledged with
     its raft index) while backups are requested in every format / flag combination
     (fmt=binary|sql|delete, vacuum, compress) from the leader, through a follower (forwarded) and
@@ -23,13 +25,19 @@
 (B) on a quiescent small database the leader->follower byte stream of a forwarded backup
     (binary and SQL, compressed and not) is cut after p bytes, FIN and RST, for sampled p (quick)
     or every p (thorough); a response with status 200 that is read to its end without error and
-    is not the complete backup violates CutIsError."""
-import json, os, threading, vlib
+    is not the complete backup violates CutIsError.
+(P) the node producing the backup fails after streaming began (fault points: the source of the
+    file copy in Store.Backup is closed right before the copy; db.Dump fails at the 1st / 2nd / 3rd
+    table), every format x compress x (leader itself | through a follower), requested over HTTP;
+    a response with status 200 that is read to its end without error violates CutIsError."""
+import json, os, shutil, threading, vlib
 LEVEL = "model_checking"
 TECHNIQUE = "TLA+ spec of the backup procedures and the inter-node stream, TLC exhaustive + negative controls; live-cluster backups under a sum-preserving write load and stream cuts validated by a TLA+ trace spec"
 
 NEG = (("GateDuringFileCopy", "Consistent"), ("SnapshotBeforeCopy", "Consistent"), ("DumpInOneReadTxn", "Consistent"),
-       ("BackupSingleStep", "Consistent"), ("StreamEndDetected", "CutIsError"), ("AbortAfterPartial", "CutIsError"))
+       ("BackupSingleStep", "Consistent"), ("StreamEndDetected", "CutIsError"), ("AbortAfterPartial", "CutIsError"),
+       ("EndMarkerOnlyOnSuccess", "CutIsError"), ("EndMarkerOnlyOnSuccess_Complete", "Complete"),
+       ("CopyErrorReturned", "CutIsError"), ("CopyErrorReturned_Complete", "Complete"))
 
 
 def b(x):
@@ -79,16 +87,28 @@ def run(ctx):
 
 def judge(ctx, p, tr):
     st = json.loads(p.stdout.strip().splitlines()[-1])
-    ctx.cov["driver"] = {k: v for k, v in st.items() if k != "CutOutcomes"}
+    ctx.cov["driver"] = {k: v for k, v in st.items() if k not in ("CutOutcomes", "PFOutcomes")}
     ctx.cov["cut_outcomes"] = st.get("CutOutcomes")
+    ctx.cov["producer_failure_outcomes"] = st.get("PFOutcomes")
     if st["BackupsOK"] < ctx.pick(40, 300) or st["WritesAcked"] < 300 or st["DistinctStates"] < 20:
         raise vlib.Undecided("backups under load did not run: %s" % ctx.cov["driver"])
     if st["CutFired"] < ctx.pick(200, 2000):
         raise vlib.Undecided("stream cuts did not run: %s" % ctx.cov["driver"])
+    if st["PFCases"] < 24 or st["PFFired"] < st["PFCases"]:
+        raise vlib.Undecided("producer failures were not injected in every case: %s" % ctx.cov["driver"])
     if st["WitnessPaused"] < 4:
         raise vlib.Undecided("the paused-copy witnesses did not run: %s" % ctx.cov["driver"])
     if min(st["ByVia"].get(v, 0) for v in ("leader", "follower", "local")) < 10:
         raise vlib.Undecided("a backup path was not exercised: %s" % st["ByVia"])
+    bad = os.path.join(os.path.dirname(tr), "bad")
+    if os.path.isdir(bad):
+        # diagnostics the harness keeps of a backup answered 200 that does not restore: its body and the
+        # recent gate / checkpoint hook events of all nodes
+        keep = os.path.join(vlib.OUT, "replays", ctx.pid)
+        os.makedirs(keep, exist_ok=True)
+        for f in sorted(os.listdir(bad)):
+            shutil.copy(os.path.join(bad, f), os.path.join(keep, "%s-%s" % (ctx.tier, f)))
+        ctx.cov["unrestorable_bodies_kept"] = sorted(os.listdir(bad))
     rows = vlib.read_nd(tr)
 
     def corrupt(rows):
@@ -110,11 +130,25 @@ def judge(ctx, p, tr):
             return "backup:%s:fmt=%s:vacuum=false:compress=%s:via=follower" % (name, bad.get("fmt"), b(bad.get("compress")))
         if ev == "cut":
             return "backup:%s:cut=%s:compress=%s:fmt=%s:at=%s" % (name, bad.get("kind"), b(bad.get("compress")), bad.get("fmt"), bad.get("class"))
+        if ev == "pf":
+            return "backup:%s:format=%s:compress=%s:via=%s:at=%s" % (name, bad.get("format"), b(bad.get("compress")), bad.get("via"), bad.get("at"))
         return "backup:%s:%s" % (name or "rejected", ev)
-    twice(vlib.trace_check, ctx, "TraceBackup", "TraceBackup.cfg", tr, "backup", key_fn=key, selftest=corrupt, timeout=2400)
+    r = twice(vlib.trace_check, ctx, "TraceBackup", "TraceBackup.cfg", tr, "backup", key_fn=key, selftest=corrupt, timeout=2400)
+    if r["accepted"]:
+        # binding of the producer-failure rule: the recorded cases with one of them answered 200 / read to the end
+        pf = [dict(x) for x in rows if x.get("ev") == "pf"]
+        pf[len(pf) // 2].update(status=200, clean=True)
+        p2 = tr + ".pf-corrupt"
+        vlib.write_nd(p2, pf)
+        r2 = twice(vlib.tlc_trace, ctx, "TraceBackup", "TraceBackup.cfg", p2, timeout=900)
+        if r2["accepted"] or [n for _, n in r2["bads"]] != ["success-although-producer-failed"]:
+            raise vlib.Undecided("binding self-test failed: TraceBackup accepted a producer failure answered as a backup (%s)" % r2["bads"])
+        ctx.cov.setdefault("binding_selftests", []).append({"module": "TraceBackup", "rule": "success-although-producer-failed", "rejected_corrupted_trace": True})
     nbk = sum(1 for r in rows if r.get("ev") in ("bk", "ref"))
     ncut = sum(1 for r in rows if r.get("ev") == "cut")
-    ctx.add("traces_validated_against_impl", nbk + ncut)
+    npf = sum(1 for r in rows if r.get("ev") == "pf")
+    ctx.add("traces_validated_against_impl", nbk + ncut + npf)
+    ctx.cov["producer_failures_validated"] = npf
     ctx.cov["backups_validated"] = nbk
     ctx.cov["cuts_validated"] = ncut
     ctx.cov["history_states"] = sum(1 for r in rows if r.get("ev") in ("init", "w"))
@@ -132,11 +166,12 @@ def judge(ctx, p, tr):
     ctx.sample(bks[7:11])
     ctx.sample([r for r in rows if r.get("ev") == "cut"][20:24])
     ctx.sample([r for r in rows if r.get("ev") == "w"][50:53])
+    ctx.sample([r for r in rows if r.get("ev") == "pf"][16:19])
     ctx.cov["exhaustive"] = False
     ctx.cov["cut_positions"] = "every byte position" if ctx.thorough else "sampled (first 12, last 12, random)"
     ctx.assumptions += [
         "window of a backup: start = DBAppliedIndex of the source node read before the request, end = its Raft commit index read after the response; if leadership moved during the request only the window-free rules (restorable, complete, equal to SOME state of the history) are applied",
         "a backup's content is compared through a projection (row counts, sums of every numeric column of the three tables, number of schema objects, integrity_check), not byte by byte",
         "the stream cut is injected at the follower's end of the TCP connection (reads end with EOF / ECONNRESET after p bytes, the socket is then really closed, with linger 0 for RST)",
-        "a failure inside the leader after streaming has begun (I/O error while reading the database) is not injected",
+        "a failure of the producing node after streaming began is injected at two places only: the source file of the copy in Store.Backup is closed right before the copy (so the copy fails on its first read: nothing of the file is in the stream), and db.Dump returns an error at the k-th table (k = 1, 2, 3); a read error in the middle of the file copy and SQLite errors inside a dump query are not injected",
     ]
